@@ -1222,3 +1222,79 @@ def signer_pubkey(W, t, check_body=True):
         if isinstance(k, tuple) and k and k[0] == "field" and k[2] == "signing_key":
             return k[1]
     return None
+
+
+def _inline_site_args(fn, ev, site):
+    """Argument terms of an inlined helper call (the parameter-binding assignments left in the block that held the call)."""
+    b = site["call_block"]
+    out = []
+    for i, st in enumerate(fn.blocks[b].stmts):
+        if st.get("inline_bind") and site["local_offset"] < st["dst"]["l"] <= site["local_offset"] + site["nargs"]:
+            out.append((st["dst"]["l"] - site["local_offset"], ev.op(st["rv"]["op"], (b, i))))
+    out.sort()
+    return [t for _, t in out]
+
+
+def outparam_wrapper_value(W, fn, ev, obj, use_bb):
+    """`obj` is a buffer filled through an out-parameter helper H(args.., &mut obj) that did not exist on the reference tree, and a reference
+    function R has become the thin wrapper `R(args..) = { let mut v = Vec::new(); H(args.., &mut v); v }`.  If, at use_bb, obj holds exactly
+    what one call of H appended to an empty buffer (emptied by clear() / created in this iteration, nothing else appended), the value is
+    R(args..): returns that call term, else None."""
+    P = W.prog
+    if not (isinstance(obj, tuple) and obj and obj[0] == "obj" and obj[1] == fn.path):
+        return None
+    sites = fn.j.get("inline_sites") or []
+    for S in sites:
+        H = S["helper"]
+        region = set(range(S["first_block"], S["first_block"] + S["nblocks"]))
+        a = _inline_site_args(fn, ev, S)
+        outpos = [i for i, t in enumerate(a) if values.strip_payload(t) == obj]
+        if len(outpos) != 1:
+            continue
+        # the reference function that wraps H
+        R = None
+        for rp, hs in P.inlined.items():
+            rf = P.fns.get(rp)
+            if rf is None or rp == fn.path or H not in hs or rf.loops() is None:
+                continue
+            rev = W.ev(rp)
+            for S2 in rf.j.get("inline_sites") or []:
+                if S2["helper"] != H:
+                    continue
+                a2 = _inline_site_args(rf, rev, S2)
+                ret = values.strip_payload(rev.ret())
+                if not (isinstance(ret, tuple) and ret and ret[0] == "obj" and len(a2) == len(a)):
+                    continue
+                init = W.obj_init(ret)
+                if not (is_call(init) and callee_name(init[1]) in ("new", "with_capacity") and "Vec" in init[1]):
+                    continue
+                reg2 = set(range(S2["first_block"], S2["first_block"] + S2["nblocks"]))
+                ev_ok = all(b in reg2 for (b, callee, argi, ap) in rev.events_on(ret[2]) if rf.blocks[b].term["arg_tys"][argi].startswith("&mut"))
+                params_ok = all((values.strip_payload(t) == ret) if i == outpos[0] else (t == ("param", rp, i + 1)) for i, t in enumerate(a2))
+                if ev_ok and params_ok:
+                    R = rp
+        if R is None:
+            continue
+        # history of obj in fn up to the use
+        muts = [(b, callee_name(callee)) for (b, callee, argi, ap) in ev.events_on(obj[2]) if fn.blocks[b].term["arg_tys"][argi].startswith("&mut")]
+        outside = [(b, nm) for (b, nm) in muts if b not in region]
+        clears = [b for (b, nm) in outside if nm == "clear" or (nm == "truncate" and ev.call_args(b)[1] == ("int", 0))]
+        others = [(b, nm) for (b, nm) in outside if b not in clears and nm not in ("reserve", "reserve_exact", "shrink_to_fit", "shrink_to")]
+        if others:
+            continue
+        cb = S["call_block"]
+        if not fn.dominates(cb, use_bb):
+            continue
+        loops_use = {l["header"] for l in fn.in_loop(use_bb)}
+        inits = ev.obj_init(obj[2])
+        emptied = False
+        if len(clears) == 1 and fn.dominates(clears[0], cb) and {l["header"] for l in fn.in_loop(clears[0])} == loops_use:
+            emptied = True      # cleared in the same iteration, before the helper runs
+        elif not clears and len(inits) == 1 and {l["header"] for l in fn.in_loop(inits[0][0])} == loops_use and \
+                is_call(inits[0][1]) and callee_name(inits[0][1][1]) in ("new", "with_capacity"):
+            emptied = True      # a fresh buffer per iteration
+        if not emptied:
+            continue
+        args = tuple(t for i, t in enumerate(a) if i != outpos[0])
+        return ("call", R, args, (fn.path, cb))
+    return None
